@@ -8,7 +8,7 @@ address / a header value that `ParseAddr` accepts, its `String()`, and `Prefix.C
 for each configured range); it instantiates the model's `Net` parameter.
 `fails` (0-2) upstream round trips fail and are retried; `hops` = reverse_proxy request header ops
 (0 none, 1 set an unrelated field, 2 delete X-Forwarded-Host).
-Answers: `ip=<hex> tp=<0|1> xff=<H> xfp=<H> xfh=<H>[ | xff=… xfp=… xfh=…]*` (one triple per attempt) | `ip=<hex> tp=<0|1> err` | `bad-op`.
+Answers: `ip=<hex> tp=<0|1> ph=<hex> lg=<hex> cm=<0|1> rm=<0|1> pp=<hex>/0|invalid xff=<H> xfp=<H> xfh=<H>[ | xff=… xfp=… xfh=…]*` (one triple per attempt) | `ip=<hex> tp=<0|1> err` | `bad-op`.
 -/
 import CaddyModel.C10.Model
 
@@ -20,15 +20,16 @@ structure Entry where
   canon : Bytes
   sbits : List Bool
   hbits : List Bool
+  fbits : List Bool
 
 /-- a configured range: which list it is in and its position -/
 structure PIdx where
-  handler : Bool
+  kind : Nat      -- 0 server trusted_proxies, 1 reverse_proxy trusted_proxies, 2 the harness's fixed matcher ranges
   idx : Nat
 
 def tableNet (tbl : List Entry) : Net Entry PIdx where
   parseAddr := fun b => tbl.find? (fun e => e.sub == b)
-  contains := fun p a => (if p.handler then a.hbits else a.sbits)[p.idx]? == some true
+  contains := fun p a => (if p.kind = 0 then a.sbits else if p.kind = 1 then a.hbits else a.fbits)[p.idx]? == some true
   toString := fun a => a.canon
 
 def cidrChar (c : Char) : Bool :=
@@ -48,16 +49,21 @@ def parseBits (n : Nat) (s : String) : Option (List Bool) :=
   if s.length ≠ n then none else
   s.toList.mapM fun c => if c == '0' then some false else if c == '1' then some true else none
 
+/-- zones of the harness's fixed matcher ranges `10.0.0.0/8 2001:db8::/32 ::1 fe80::/10%eth0`
+    (same constants in harness/internal/c10/c10.go) -/
+def fixedZones : List Bytes := [[], [], [], [101, 116, 104, 48]]
+
 def parseTable (ns nh : Nat) (s : String) : Option (List Entry) :=
   if s == "." then some [] else
   (s.splitOn ";").mapM fun row =>
     match row.splitOn ":" with
-    | [a, b, c, d] => do
+    | [a, b, c, d, e] => do
       let sub ← Hex.decode a
       let canon ← Hex.decode b
       let sb ← parseBits ns c
       let hb ← parseBits nh d
-      pure ⟨sub, canon, sb, hb⟩
+      let fb ← parseBits fixedZones.length e
+      pure ⟨sub, canon, sb, hb, fb⟩
     | _ => none
 
 def parseHdrs (s : String) : Option (List (Bytes × Bytes)) :=
@@ -79,8 +85,11 @@ def showVal : Option (Option (List Bytes)) → String
 def showFwd (f : Fwd) : String :=
   "xff=" ++ showVal f.xff ++ " xfp=" ++ showVal f.xfp ++ " xfh=" ++ showVal f.xfh
 
-def showOut (o : Out) (attempts : Option (List Fwd)) : String :=
+def showOut (o : Out) (k : Consumers) (attempts : Option (List Fwd)) : String :=
   "ip=" ++ Hex.encode o.clientIP ++ " tp=" ++ (if o.trusted then "1" else "0") ++
+  " ph=" ++ Hex.encode k.placeholder ++ " lg=" ++ Hex.encode k.logField ++
+  " cm=" ++ (if k.clientMatch then "1" else "0") ++ " rm=" ++ (if k.remoteMatch then "1" else "0") ++
+  " pp=" ++ (match k.proxyProto with | some a => Hex.encode a ++ "/0" | none => "invalid") ++
   (match attempts with
    | none => " err"
    | some l => " " ++ " | ".intercalate (l.map showFwd))
@@ -91,7 +100,7 @@ def parseSmall (s : String) : Option Nat :=
 def parseOps (s : String) : Option Ops :=
   if s == "0" then some .none else if s == "1" then some .setOther else if s == "2" then some .delXFH else none
 
-def idxList (handler : Bool) (n : Nat) : List PIdx := (List.range n).map (fun i => ⟨handler, i⟩)
+def idxList (kind : Nat) (n : Nat) : List PIdx := (List.range n).map (fun i => ⟨kind, i⟩)
 
 def handle : List String → String
   | ["req", srvT, cih, strict, hT, omitF, remote, tls, host, hdrs, tbl, failsF, hopsF] =>
@@ -108,9 +117,14 @@ def handle : List String → String
       match parseTable ns nh tbl, parseSmall failsF, parseOps hopsF with
       | some table, some fails, some ops =>
         let cfg : Cfg PIdx :=
-          { srvTrusted := srv.map (idxList false), clientIPHeaders := ci, strict := st,
-            handlerTrusted := idxList true nh, omitXFF := o1, omitXFP := o2, omitXFH := o3 }
+          { srvTrusted := srv.map (idxList 0), clientIPHeaders := ci, strict := st,
+            handlerTrusted := idxList 1 nh, omitXFF := o1, omitXFP := o2, omitXFH := o3 }
+        -- the probe's matchers: server ranges, handler ranges, then the fixed ranges
+        let mranges : List (MRange PIdx) :=
+          ((idxList 0 ns ++ idxList 1 nh).map (fun p => ⟨p, []⟩)) ++
+          (fixedZones.zipIdx.map (fun zi => ⟨⟨2, zi.2⟩, zi.1⟩))
         showOut (serve (tableNet table) cfg ⟨remote, tls, host⟩ wire)
+          (serveConsumers (tableNet table) cfg mranges ⟨remote, tls, host⟩ wire)
           (serveAttempts (tableNet table) cfg ⟨remote, tls, host⟩ wire ops fails)
       | _, _, _ => "bad-op"
     | _, _, _, _, _, _, _, _, _ => "bad-op"
